@@ -886,6 +886,14 @@ func main() {
 				out.fails = keep
 				out.evals++
 				record(ctx, out)
+			case strings.HasPrefix(l, "W "):
+				sc, err := parseSlow(l)
+				if err != nil {
+					continue
+				}
+				o := slowStage([]slowScen{sc}, 1)
+				record(ctx, o)
+				ctx.Extra("slow-reader:"+l, o.extras)
 			}
 		}
 		return
@@ -895,6 +903,15 @@ func main() {
 	if ctx.Thorough || os.Getenv("VERIF_C11_SMOKE") != "" {
 		// VERIF_C11_SMOKE: every configuration of the thorough tier with the budgets of the quick tier
 		configs = thoroughConfigs()
+	}
+
+	if os.Getenv("VERIF_C11_ONLY") == "slow" {
+		// the slow-reader stage alone (development / timing)
+		scens := slowScenarios(hx.NewRand(ctx.Rng.U64()), ctx.Thorough)
+		o := slowStage(scens, ctx.Budget(8, 12))
+		record(ctx, o)
+		ctx.Extra("slow-reader", o.extras)
+		return
 	}
 
 	// 1. corpus: the known findings, each alone in a fresh child (deterministic)
@@ -936,9 +953,20 @@ func main() {
 			outs[2*i+1].extras["conversations"] = len(convs)
 		}(i, cfg)
 	}
+	// 3. slow-reader stage (oracle-only), concurrently with the others; its seed is drawn after theirs
+	var slowOut *workerOut
+	slowDone := make(chan struct{})
+	slowScens := slowScenarios(hx.NewRand(ctx.Rng.U64()), ctx.Thorough)
+	go func() {
+		slowOut = slowStage(slowScens, ctx.Budget(8, 12))
+		close(slowDone)
+	}()
 	wg.Wait()
 	<-corpusDone
+	<-slowDone
 	record(ctx, corpusOut) // corpus cases come first in the oracle log
+	record(ctx, slowOut)
+	ctx.Extra("slow-reader", slowOut.extras)
 	for i, o := range outs {
 		record(ctx, o)
 		kind := "ledger"
